@@ -212,6 +212,13 @@ def corpus():
         for n in range(nuses):
             toks += ["x1:%d:%d" % (n, n + 1), "u2:%d" % n, "x1:%d:%d" % (n + 7, n + 3), "u3:%d" % ((n + 5) % nuses)]
         out.append(case_dict(kind, "unix", False, 3, toks + ["p2", "p3"]))
+    for kind in KINDS:
+        # the administrator closes the server in the middle of it all (C17's operation; here it only has to be the model's):
+        # garbage handled, an incomplete frame held open, a failed authentication - then close, and what the clients see after
+        for tr, auth in (("tcp", False), ("unix", True)):
+            out.append(case_dict(kind, tr, auth, 3, ["c1:g", "p1", "c2:g", "r2:" + frame(b"\xff\xfe\xfd").hex(), "c3:g",
+                                                     "i3:ht", "p1"] + (["c4:b"] if auth else []) +
+                                 ["c5:g", "x5:14:6", "p1", "X", "p1", "c6:g", "X"]))
     foreign, first = servers.FOREIGN_NAMES, servers.FIRST_RAISE
     nraise = len(servers.POISON_ANSWERS) - first
     for kind in KINDS:
@@ -376,6 +383,10 @@ def gen_case(r, corp, kind=None):
                 toks.append("g%d" % g)
     for g in good:
         toks.append("p%d" % g)
+    if r.chance(1, 5):
+        # the server is closed with all of this going on; what the clients see afterwards
+        toks.append("X")
+        toks += ["p%d" % g for g in good[:2]] + ["c%d:g" % nextk]
     return case_dict(kind, transport, auth, nb, toks)
 
 
